@@ -756,7 +756,8 @@ def run(ctx, only_cases=None, sched_cases=None):
     ctx.trusted = ["Coq 8.16.1 kernel + vm_compute", "hand-written model coq/Mem/Model.v tied to llm/memory.go by this differential run only",
                    "the model's inputs (layer sizes, KV sizes, graph sizes, projector sizes) are read with the real fs/ggml API (GroupLayers/Size, GraphSize, "
                    "VisionGraphSize, projectorMemoryRequirements): those functions are oracles, not modelled",
-                   "Go harness harness/cmd/c16 and overlay exports in harness/overlay/llm/c16.go (add-only, build tag verif)",
+                   "Go harness harness/cmd/c16, overlay exports in harness/overlay/llm/c16.go and the in-package test harness/overlay/server/c16_test.go "
+                   "(add-only, build tag verif); the mock llm.LlamaServer of the scheduler harness (EstimatedVRAMByGPU is an input table)",
                    "python case generator and monitor (props/c16.py)"]
     ctx.assumptions = ["size theorems assume no uint64 operation of the estimator wraps (r_ok = true); proved (C16_no_wrap_below_2_64) to hold whenever the sizes read "
                        "from the file add up without wrapping and the explicit demand expression of the inputs is below 2^64",
@@ -926,7 +927,10 @@ MANIFEST = {
                 "declared fit only if all layers (up to the num_gpu cap) were placed; the two byte-count theorems hold for every input whose explicit total demand "
                 "is below 2^64 (no uint64 wrap-around; the unguarded statements are refuted in Coq and recorded as a known finding). "
                 "The model is tied to the code by a differential run on generated GGUF models and GPU lists evaluated inside Coq with vm_compute; "
-                "the property's clauses are also monitored directly on the real MemoryEstimate.",
+                "the property's clauses are also monitored directly on the real MemoryEstimate.  The path the scheduler takes to the estimator "
+                "(filterGPUsWithoutLoadingModels, updateFreeSpace, pickBestFull/PartialFitByLibrary) is modelled too: free memory handed to the estimator is "
+                "never above the reported value and the plan for the chosen GPUs obeys the bound against the REPORTED free memory (proved; tied by an "
+                "in-package test binary that drives the real scheduler functions; monitored end to end).",
         "design_ref": "DESIGN.md section 5, C16",
     },
     "level_note": "Trusted: Coq kernel/vm_compute; the model-to-code tie is differential testing (generator-bounded); GraphSize/Size/VisionGraphSize are "
